@@ -2,6 +2,7 @@ package props
 
 import (
 	"fmt"
+	"go/ast"
 	"go/token"
 	"go/types"
 	"sort"
@@ -238,21 +239,47 @@ func wrapperMatch(g *guardCtx, f *guardFact, k an.FKey, val bool) (map[repoIdx]s
 		return nil, false
 	}
 	callee := c.Call.StaticCallee()
-	if callee == nil || callee.Object() == nil {
+	if callee == nil {
 		return nil, false
 	}
-	fobj, _ := callee.Object().(*types.Func)
-	for _, wf := range wrapperSummary(g.p, fobj) {
+	var sum []wrapperFact
+	if callee.Object() != nil {
+		fobj, _ := callee.Object().(*types.Func)
+		sum = wrapperSummary(g.p, fobj)
+	} else if lit, ok := callee.Syntax().(*ast.FuncLit); ok && callee.Parent() == g.fn {
+		// a predicate closure of this very function: `listable := func(i int) bool {..}`
+		if pkg := g.p.PkgOfSSA(callee); pkg != nil {
+			sum = wrapperSummaryLit(pkg.TypesInfo, lit)
+		}
+	}
+	for _, wf := range sum {
 		if wf.kind != f.name || wf.result != val || wf.repoArg >= len(c.Call.Args) {
 			continue
 		}
 		if wf.kind == "tenant.HasAccess" {
-			if wf.ctxArg < 0 || wf.ctxArg >= len(c.Call.Args) {
+			var ctxv ssa.Value
+			switch {
+			case wf.ctxArg >= 0 && wf.ctxArg < len(c.Call.Args):
+				ctxv = c.Call.Args[wf.ctxArg]
+			case wf.ctxArg == -2:
+				// the context captured by the closure: its binding at the closure's creation
+				if mc, ok := c.Call.Value.(*ssa.MakeClosure); ok {
+					for i, fv := range callee.FreeVars {
+						if wf.capturedCtx != nil && fv.Name() == wf.capturedCtx.Name() && i < len(mc.Bindings) {
+							ctxv = mc.Bindings[i]
+						}
+					}
+				}
+			}
+			if ctxv == nil {
 				continue
 			}
-			if f.ctxParam != nil && !derivesFromRequestCtx(c.Call.Args[wf.ctxArg], f.ctxParam) {
+			if f.ctxParam != nil && !derivesFromRequestCtx(ctxv, f.ctxParam) {
 				continue
 			}
+		}
+		if wf.byIndex {
+			return map[repoIdx]string{g.normIdx(c.Call.Args[wf.repoArg]): "repoMetaData"}, true
 		}
 		return g.repoIndexes(c.Call.Args[wf.repoArg]), true
 	}
@@ -476,6 +503,14 @@ func derivesFromRequestCtx(v ssa.Value, ctxParam ssa.Value) bool {
 		if c, ok := x.(*ssa.Call); ok {
 			if cal := an.StaticCallee(c); cal != nil && cal.Name() == "WithUnsafeContext" {
 				unsafe = true
+			}
+		}
+		if al, ok := x.(*ssa.Alloc); ok && al.Referrers() != nil {
+			// a context captured by a closure lives in a cell: whatever is stored there
+			for _, ref := range *al.Referrers() {
+				if st, ok := ref.(*ssa.Store); ok && st.Addr == al {
+					walk(st.Val, depth+1)
+				}
 			}
 		}
 		if in, ok := x.(ssa.Instruction); ok {
